@@ -8,6 +8,7 @@ use crate::redisx::*;
 use crate::rng::Rng;
 use crate::Args;
 use redis_sim::redis::{Command, SDS};
+use serde_json::json;
 #[allow(unused_imports)]
 use crate::redisx::payload;
 
@@ -58,12 +59,447 @@ fn gen(rng: &mut Rng, now: u64) -> Command {
     }
 }
 
+
+// ------------------------------------------------------------------------------------------
+// read-only classification sweep
+//
+// For a prepared state S (a replayable prefix of timed commands) and EVERY command variant v
+// (every Command constructor of the data / key / server families with every boolean and option
+// field both ways) the IMPLEMENTATION's own `v.is_read_only()` is taken.  If it says read-only:
+// two twin executors are built by replaying the prefix; v runs on one of them only — first through
+// `execute_readonly` (snapshot must not move), then through `execute` — and the full visible
+// snapshots (keys, types, values, PTTLs) of the twins are compared NOW and again after the clock
+// has been moved (clock only, `update_time_readonly`) to one ms before / exactly / one ms after
+// every deadline that existed before v, so a silently dropped, added or shifted deadline shows up
+// as a key that exists on one twin and not on the other.  Signature `C17:readonly-mutates:<CMD>`.
+
+#[derive(Clone)]
+struct Prep {
+    t: u64,
+    evict: bool,
+    cmd: Command,
+}
+
+fn build(prefix: &[Prep]) -> Sess {
+    let mut se = Sess::new(BASE_MS);
+    for p in prefix {
+        se.set_now(p.t, p.evict);
+        let _ = se.exec(&p.cmd);
+    }
+    se
+}
+
+/// now, then (d-1, d, d+1) for every deadline d of a visible key, ascending, deduplicated
+fn time_points(se: &mut Sess) -> Vec<u64> {
+    let now = se.now;
+    let mut pts = vec![now];
+    let keys: Vec<String> = se.ex.get_data().keys().cloned().collect();
+    for k in keys {
+        let p = se.pttl(&k);
+        if p > 0 && p < 4_000_000_000_000 {
+            let d = now + p as u64;
+            pts.extend_from_slice(&[d - 1, d, d + 1]);
+        }
+    }
+    pts.sort();
+    pts.dedup();
+    pts.retain(|t| *t >= now);
+    pts
+}
+
+fn snapshots(se: &mut Sess, pts: &[u64]) -> Vec<String> {
+    pts.iter()
+        .map(|t| {
+            se.set_now(*t, false);
+            se.dump()
+        })
+        .collect()
+}
+
+/// state of a command's primary key in the prepared state: none | missing | <type>:ttl | <type>:persist
+fn key_state(se: &mut Sess, cmd: &Command) -> String {
+    let k = match cmd.get_primary_key() {
+        Some(k) => k.to_string(),
+        None => return "nokey".into(),
+    };
+    let vis = matches!(
+        se.ex.execute_readonly(&Command::Exists(vec![k.clone()])),
+        redis_sim::redis::RespValue::Integer(1)
+    );
+    if !vis {
+        return "missing".into();
+    }
+    let ty = match se.ex.get_data().get(&k) {
+        Some(redis_sim::redis::Value::String(_)) => "string",
+        Some(redis_sim::redis::Value::List(_)) => "list",
+        Some(redis_sim::redis::Value::Set(_)) => "set",
+        Some(redis_sim::redis::Value::Hash(_)) => "hash",
+        Some(redis_sim::redis::Value::SortedSet(_)) => "zset",
+        _ => "other",
+    };
+    format!("{}:{}", ty, if se.pttl(&k) >= 0 { "ttl" } else { "persist" })
+}
+
+fn opt4() -> Vec<(Option<i64>, Option<i64>, Option<i64>, Option<i64>)> {
+    // every Some/None pattern of (ex, px, exat, pxat); values valid relative to BASE_MS-ish clocks
+    let mut v = Vec::new();
+    for m in 0..16u32 {
+        v.push((
+            if m & 1 != 0 { Some(100) } else { None },
+            if m & 2 != 0 { Some(70_000) } else { None },
+            if m & 4 != 0 { Some(5_000) } else { None },
+            if m & 8 != 0 { Some(5_000_000) } else { None },
+        ));
+    }
+    v
+}
+
+/// every command variant on key `a` (second key `b`), every boolean / option field both ways
+fn all_variants(rng: &mut Rng, a: &str, b: &str) -> Vec<Command> {
+    let a = a.to_string();
+    let b = b.to_string();
+    let bools = [false, true];
+    let mut v: Vec<Command> = Vec::new();
+    // strings
+    v.push(Command::Get(a.clone()));
+    for (ex, px, exat, pxat) in opt4() {
+        for nx in bools {
+            for xx in bools {
+                for get in bools {
+                    for keepttl in bools {
+                        v.push(Command::Set { key: a.clone(), value: payload(rng), ex, px, exat, pxat, nx, xx, get, keepttl });
+                    }
+                }
+            }
+        }
+        for persist in bools {
+            v.push(Command::GetEx { key: a.clone(), ex, px, exat, pxat, persist });
+        }
+    }
+    v.push(Command::SetNx(a.clone(), payload(rng)));
+    v.push(Command::Append(a.clone(), payload(rng)));
+    v.push(Command::GetSet(a.clone(), payload(rng)));
+    v.push(Command::StrLen(a.clone()));
+    v.push(Command::MGet(vec![a.clone(), b.clone()]));
+    v.push(Command::MSet(vec![(a.clone(), payload(rng)), (b.clone(), payload(rng))]));
+    v.push(Command::MSetNx(vec![(a.clone(), payload(rng)), (b.clone(), payload(rng))]));
+    v.push(Command::BatchSet(vec![(a.clone(), payload(rng))]));
+    v.push(Command::BatchGet(vec![a.clone(), b.clone()]));
+    v.push(Command::GetRange(a.clone(), 0, -1));
+    v.push(Command::GetRange(a.clone(), -100, -200));
+    v.push(Command::SetRange(a.clone(), 1, payload(rng)));
+    v.push(Command::SetRange(a.clone(), 3, SDS::new(vec![])));
+    v.push(Command::SetBit(a.clone(), 7, 1));
+    v.push(Command::GetBit(a.clone(), 7));
+    v.push(Command::GetBit(a.clone(), 1 << 20));
+    v.push(Command::GetDel(a.clone()));
+    v.push(Command::Incr(a.clone()));
+    v.push(Command::Decr(a.clone()));
+    v.push(Command::IncrBy(a.clone(), 5));
+    v.push(Command::DecrBy(a.clone(), 5));
+    v.push(Command::IncrByFloat(a.clone(), 1.5));
+    // keys
+    v.push(Command::Del(vec![a.clone(), b.clone()]));
+    v.push(Command::Exists(vec![a.clone(), b.clone(), a.clone()]));
+    v.push(Command::TypeOf(a.clone()));
+    for pat in ["*", "?", "[a-c]*", "k?", "*é", "nomatch"] {
+        v.push(Command::Keys(pat.to_string()));
+    }
+    v.push(Command::FlushDb);
+    v.push(Command::FlushAll);
+    v.push(Command::DbSize);
+    v.push(Command::RandomKey);
+    v.push(Command::Rename(a.clone(), b.clone()));
+    v.push(Command::RenameNx(a.clone(), b.clone()));
+    v.push(Command::Rename(a.clone(), a.clone()));
+    // expiry
+    for nx in bools {
+        for xx in bools {
+            for gt in bools {
+                for lt in bools {
+                    for secs in [100i64, 1, 0, -1] {
+                        v.push(Command::Expire { key: a.clone(), seconds: secs, nx, xx, gt, lt });
+                        v.push(Command::PExpire { key: a.clone(), milliseconds: secs * 1000, nx, xx, gt, lt });
+                    }
+                }
+            }
+        }
+    }
+    v.push(Command::ExpireAt(a.clone(), 5_000));
+    v.push(Command::ExpireAt(a.clone(), 1));
+    v.push(Command::PExpireAt(a.clone(), 5_000_000));
+    v.push(Command::PExpireAt(a.clone(), 1));
+    v.push(Command::Ttl(a.clone()));
+    v.push(Command::Pttl(a.clone()));
+    v.push(Command::ExpireTime(a.clone()));
+    v.push(Command::PExpireTime(a.clone()));
+    v.push(Command::Persist(a.clone()));
+    // lists
+    v.push(Command::LPush(a.clone(), vec![payload(rng)]));
+    v.push(Command::RPush(a.clone(), vec![payload(rng), payload(rng)]));
+    v.push(Command::LPop(a.clone()));
+    v.push(Command::RPop(a.clone()));
+    v.push(Command::LLen(a.clone()));
+    for i in [0isize, -1, 100] {
+        v.push(Command::LIndex(a.clone(), i));
+        v.push(Command::LSet(a.clone(), i, payload(rng)));
+    }
+    v.push(Command::LRange(a.clone(), 0, -1));
+    v.push(Command::LRange(a.clone(), 5, 1));
+    v.push(Command::LTrim(a.clone(), 0, -1));
+    v.push(Command::LTrim(a.clone(), 1, 0));
+    v.push(Command::RPopLPush(a.clone(), b.clone()));
+    v.push(Command::RPopLPush(a.clone(), a.clone()));
+    for f in ["LEFT", "RIGHT"] {
+        for t in ["LEFT", "RIGHT"] {
+            v.push(Command::LMove { source: a.clone(), dest: b.clone(), wherefrom: f.into(), whereto: t.into() });
+        }
+    }
+    // sets
+    v.push(Command::SAdd(a.clone(), vec![member(rng), member(rng)]));
+    v.push(Command::SRem(a.clone(), vec![member(rng)]));
+    v.push(Command::SMembers(a.clone()));
+    v.push(Command::SIsMember(a.clone(), member(rng)));
+    v.push(Command::SCard(a.clone()));
+    v.push(Command::SPop(a.clone(), None));
+    v.push(Command::SPop(a.clone(), Some(0)));
+    v.push(Command::SPop(a.clone(), Some(2)));
+    // hashes
+    v.push(Command::HSet(a.clone(), vec![(member(rng), payload(rng))]));
+    v.push(Command::HGet(a.clone(), member(rng)));
+    v.push(Command::HDel(a.clone(), vec![member(rng)]));
+    v.push(Command::HGetAll(a.clone()));
+    v.push(Command::HKeys(a.clone()));
+    v.push(Command::HVals(a.clone()));
+    v.push(Command::HLen(a.clone()));
+    v.push(Command::HExists(a.clone(), member(rng)));
+    v.push(Command::HIncrBy(a.clone(), member(rng), 1));
+    // sorted sets
+    for nx in bools {
+        for xx in bools {
+            for gt in bools {
+                for lt in bools {
+                    for ch in bools {
+                        v.push(Command::ZAdd { key: a.clone(), pairs: vec![(2.0, member(rng))], nx, xx, gt, lt, ch });
+                    }
+                }
+            }
+        }
+    }
+    v.push(Command::ZRem(a.clone(), vec![member(rng)]));
+    for ws in bools {
+        v.push(Command::ZRange(a.clone(), 0, -1, ws));
+        v.push(Command::ZRevRange(a.clone(), 0, -1, ws));
+        for limit in [None, Some((0isize, 2usize)), Some((-1, 2))] {
+            v.push(Command::ZRangeByScore { key: a.clone(), min: "-inf".into(), max: "+inf".into(), with_scores: ws, limit });
+        }
+        v.push(Command::ZRangeByScore { key: a.clone(), min: "abc".into(), max: "(1".into(), with_scores: ws, limit: None });
+    }
+    v.push(Command::ZScore(a.clone(), member(rng)));
+    v.push(Command::ZRank(a.clone(), member(rng)));
+    v.push(Command::ZCard(a.clone()));
+    v.push(Command::ZCount(a.clone(), "-inf".into(), "(5".into()));
+    v.push(Command::ZCount(a.clone(), "x".into(), "5".into()));
+    // scans
+    for pattern in [None, Some("*".to_string()), Some("a*".to_string())] {
+        for count in [None, Some(1usize), Some(100)] {
+            v.push(Command::Scan { cursor: 0, pattern: pattern.clone(), count });
+            v.push(Command::HScan { key: a.clone(), cursor: 0, pattern: pattern.clone(), count });
+            v.push(Command::ZScan { key: a.clone(), cursor: 0, pattern: pattern.clone(), count });
+        }
+    }
+    // SORT, object / debug stubs, server commands
+    v.push(Command::Sort { key: a.clone(), store: None });
+    v.push(Command::Sort { key: a.clone(), store: Some(b.clone()) });
+    v.push(Command::ObjectHelp);
+    v.push(Command::ObjectEncoding(a.clone()));
+    v.push(Command::ObjectRefCount(a.clone()));
+    v.push(Command::ObjectIdleTime(a.clone()));
+    v.push(Command::ObjectFreq(a.clone()));
+    v.push(Command::DebugObject(a.clone()));
+    v.push(Command::DebugSleep(0.0));
+    v.push(Command::DebugSet("x".into(), "y".into()));
+    v.push(Command::Info);
+    v.push(Command::Ping(None));
+    v.push(Command::Ping(Some(payload(rng))));
+    v.push(Command::Echo(payload(rng)));
+    v.push(Command::Time);
+    v.push(Command::Wait(0, 0));
+    v.push(Command::Select(0));
+    v.push(Command::ConfigGet("*".into()));
+    v.push(Command::ConfigSet("maxmemory".into(), "0".into()));
+    v.push(Command::ConfigResetStat);
+    v.push(Command::CommandCommand);
+    v.push(Command::CommandCount);
+    v.push(Command::FunctionFlush);
+    v.push(Command::ClientSetName("n".into()));
+    v.push(Command::ClientGetName);
+    v.push(Command::ClientId);
+    v.push(Command::ClientInfo);
+    v.push(Command::AclWhoami);
+    v.push(Command::AclList);
+    v.push(Command::AclUsers);
+    v.push(Command::AclGetUser { username: "default".into() });
+    v.push(Command::AclCat { category: None });
+    v.push(Command::AclGenPass { bits: None });
+    v.push(Command::AclDryrun { username: "default".into(), command: "GET".into(), args: vec![a.clone()] });
+    v.push(Command::AclLog { count: None });
+    v.push(Command::AclLog { count: Some(1) });
+    v.push(Command::AclLogReset);
+    v.push(Command::Unknown("FOO".into()));
+    // not enumerated: MULTI/EXEC/DISCARD/WATCH/UNWATCH (transaction state, C05), EVAL/EVALSHA/SCRIPT
+    // (scripts), AUTH / ACL SETUSER / DELUSER (connection level) — none of them is classified read-only
+    v
+}
+
+/// the seed-like fixture: every type with and without a deadline over the common key alphabet
+fn fixture_prefix(variant: u64) -> Vec<Prep> {
+    let t = BASE_MS;
+    let px = |key: &str, ms: i64| Command::PExpire { key: k(key), milliseconds: ms, nx: false, xx: false, gt: false, lt: false };
+    let mut set_a = Command::set(k("a"), s("token"));
+    if let Command::Set { px: p, .. } = &mut set_a {
+        *p = Some(5000);
+    }
+    let z = Command::ZAdd { key: k("é"), pairs: vec![(1.0, s("m")), (2.0, s("n"))], nx: false, xx: false, gt: false, lt: false, ch: false };
+    let mut cmds = vec![
+        set_a,                                            // string with TTL  (SET s v PX 5000)
+        Command::set(k("b"), s("10")),                    // string without
+        Command::RPush(k("c"), vec![s("x"), s("y")]),     // list with TTL
+        px("c", 9000),
+    ];
+    match variant % 3 {
+        0 => {
+            cmds.push(Command::HSet(k("kk"), vec![(s("f"), s("1")), (s("g"), s("v"))]));
+            cmds.push(z);
+            cmds.push(px("é", 7000));
+        }
+        1 => {
+            cmds.push(Command::SAdd(k("kk"), vec![s("m1"), s("m2")]));
+            cmds.push(px("kk", 3000));
+            cmds.push(z);
+        }
+        _ => {
+            cmds.push(Command::HSet(k("kk"), vec![(s("f"), s("1"))]));
+            cmds.push(px("kk", 2500));
+            cmds.push(Command::SAdd(k("é"), vec![s("m1")]));
+            cmds.push(px("é", 7000));
+        }
+    }
+    cmds.into_iter().map(|cmd| Prep { t, evict: true, cmd }).collect()
+}
+
+fn random_prefix(rng: &mut Rng) -> Vec<Prep> {
+    let mut scratch = Sess::new(BASE_MS);
+    let mut v = Vec::new();
+    for _ in 0..rng.range(4, 25) {
+        let t = next_time(rng, &mut scratch);
+        let evict = !rng.chance(1, 5);
+        scratch.set_now(t, evict);
+        let cmd = gen(rng, t);
+        // SPOP / RANDOMKEY pick by hash order, which differs between twin executors
+        if matches!(cmd, Command::SPop(..)) {
+            continue;
+        }
+        let _ = scratch.exec(&cmd);
+        v.push(Prep { t, evict, cmd });
+    }
+    v
+}
+
+fn sweep_state(out: &mut Out, rng: &mut Rng, prefix: &[Prep], keys: &[&str], label: &str) {
+    let human: Vec<String> = prefix
+        .iter()
+        .map(|p| format!("t={}{} {:?}", p.t, if p.evict { "" } else { " (clock only)" }, p.cmd))
+        .collect();
+    let mut twin = build(prefix);
+    let pts = time_points(&mut twin);
+    let mut probe = build(prefix); // only used to look at key states
+    let base = snapshots(&mut twin, &pts);
+    out.count(&format!("sweep:states:{}", label));
+    for a in keys {
+        let b = *rng.pick(&KEYS);
+        for cmd in all_variants(rng, a, b) {
+            let ro = cmd.is_read_only();
+            let ks = key_state(&mut probe, &cmd);
+            out.count(&format!("sweep:{}:{}:{}", cmd.name(), if ro { "read-only" } else { "write" }, ks));
+            if !ro {
+                continue; // the property says nothing about commands the implementation calls writes
+            }
+            let mut se = build(prefix);
+            if se.dump() != base[0] {
+                out.count("sweep:twin-diverged");
+                continue;
+            }
+            let replay = |what: &str, at: u64, got: &str, want: &str, reply: &str| {
+                json!({"prepared_state": human, "command": format!("{:?}", cmd), "entry": what,
+                       "classified_read_only_by": "Command::is_read_only()", "reply": reply,
+                       "clock_at_comparison": at, "clock_at_command": pts[0],
+                       "snapshot_with_command": got, "snapshot_without_command": want})
+            };
+            // 1. the &self entry point
+            let ex = &se.ex;
+            let r0 = std::panic::catch_unwind(std::panic::AssertUnwindSafe(|| ex.execute_readonly(&cmd)));
+            let d0 = se.dump();
+            if d0 != base[0] {
+                out.violation(
+                    &format!("C17:readonly-mutates:{}", cmd.name()),
+                    &format!("{:?} is classified read-only but execute_readonly changed the visible keyspace: [{}] -> [{}]", cmd, base[0], d0),
+                    replay("execute_readonly", pts[0], &d0, &base[0], &format!("{:?}", r0.ok().map(|r| reply_text(&r, Order::AsIs)))),
+                );
+                continue;
+            }
+            // 2. the normal entry point, then the future
+            let reply = match se.exec(&cmd) {
+                Some(r) => reply_text(&r, reply_order(&cmd)),
+                None => "crash".to_string(),
+            };
+            let got = snapshots(&mut se, &pts);
+            if let Some(i) = (0..pts.len()).find(|i| got[*i] != base[*i]) {
+                let when = if i == 0 { "immediately".to_string() } else { format!("once the clock reaches t={} (+{} ms)", pts[i], pts[i] - pts[0]) };
+                out.violation(
+                    &format!("C17:readonly-mutates:{}", cmd.name()),
+                    &format!(
+                        "{:?} is classified read-only by Command::is_read_only() (reply {}) but the visible keyspace differs {}: with the command [{}], without it [{}]",
+                        cmd, reply, when, got[i], base[i]
+                    ),
+                    replay("execute", pts[i], &got[i], &base[i], &reply),
+                );
+            }
+            out.case(&format!("sweep|{}|{:?}|{:?}", label, human, cmd), base[0] != "0");
+        }
+    }
+}
+
+fn readonly_sweep(out: &mut Out, rng: &mut Rng, n_states: u64) {
+    for v in 0..3 {
+        sweep_state(out, rng, &fixture_prefix(v), &KEYS, "fixture");
+    }
+    for _ in 0..n_states {
+        let prefix = random_prefix(rng);
+        let k1 = *rng.pick(&KEYS);
+        let k2 = *rng.pick(&KEYS);
+        sweep_state(out, rng, &prefix, &[k1, k2], "random");
+    }
+}
+
 pub fn corpus(out: &mut Out) {
     // DESIGN.md §6.1, C17 row
     run_scripted(out, "C17", "rpoplpush-dst-wrongtype", vec![
         sc(0, true, Command::RPush(k("src"), vec![s("a")])),
         sc(0, true, Command::set(k("dst"), s("s"))),
         sc(0, true, Command::RPopLPush(k("src"), k("dst"))),
+    ]);
+    // round-2 seed C17-getex-persist-classified-read-only: if GETEX … PERSIST is ever classified
+    // read-only, the snapshot oracle sees the TTL go from 5000 to -1
+    run_scripted(out, "C17", "getex-persist-on-key-with-ttl", vec![
+        sc(0, true, {
+            let mut c = Command::set(k("s"), s("v"));
+            if let Command::Set { px, .. } = &mut c {
+                *px = Some(5000);
+            }
+            c
+        }),
+        sc(0, true, Command::GetEx { key: k("s"), ex: None, px: None, exat: None, pxat: None, persist: true }),
     ]);
     run_scripted(out, "C17", "lmove-dst-wrongtype", vec![
         sc(0, true, Command::RPush(k("src"), vec![s("a"), s("b")])),
@@ -79,6 +515,12 @@ pub fn run(a: &Args) {
     for _ in 0..a.n {
         run_random_sequence(&mut out, &mut rng, "C17", &gen);
     }
+    let n_states = (a.n / 25).clamp(20, 2000);
+    readonly_sweep(&mut out, &mut rng, n_states);
+    // per-command × classification × key-state table of the sweep, for the evidence
+    let table: std::collections::BTreeMap<String, u64> =
+        out.dist.iter().filter(|(k, _)| k.starts_with("sweep:")).map(|(k, v)| (k.clone(), *v)).collect();
+    out.extra.insert("readonly_sweep_distribution".into(), serde_json::json!(table));
     out.extra.insert("families_covered".into(), serde_json::json!(crate::c01::FAMILIES));
-    out.finish("case = one sequence of 1..60 commands biased towards failing commands (wrong-type operands in mixed-type states, overflowing integers, out-of-range indices, invalid expire times, two-key commands) on a fresh real CommandExecutor; oracle after every command: reply is an error or Command::is_read_only() ⇒ visible keyspace (keys, types, values, PTTLs) unchanged; distinct by op text; non-trivial iff some command changed the keyspace and some reply was informative");
+    out.finish("case = one sequence of 1..60 commands biased towards failing commands (wrong-type operands in mixed-type states, overflowing integers, out-of-range indices, invalid expire times, two-key commands) on a fresh real CommandExecutor; oracle after every command: reply is an error or Command::is_read_only() ⇒ visible keyspace (keys, types, values, PTTLs) unchanged; distinct by op text; non-trivial iff some command changed the keyspace and some reply was informative. PLUS the read-only classification sweep: for prepared states (3 fixtures with every type with/without a deadline, and random prefixes) EVERY command variant (every constructor, every boolean/option field both ways) is classified by the implementation's own Command::is_read_only(); each one it calls read-only is run on a twin executor (execute_readonly, then execute) and the twins' full snapshots are compared now and at one ms before / at / after every pre-existing deadline; a sweep case is non-trivial iff the prepared keyspace is non-empty");
 }
